@@ -913,9 +913,17 @@ package main
 //@   trusted
 //@   panics may
 //@ func fcToGo
-//@   trusted
+//@   props C03 C11
+//@   ghost R int                 -- 1: emitted as a closure over the missing parameters, 2: emitted as a plain call
+//@   ghost TXT string            -- the text the chosen emitter returned
 //@   panics may
-//@   note abstract here: dispatch between full and partial application (fcFullApplyGo is under contract, C03)
+//@   ensures never-more-arguments-than-parameters: len(fc.Args) <= len(fc_functype(fc).Targets) - 1
+//@   ensures missing-arguments-make-a-closure: len(fc.Args) < len(fc_functype(fc).Targets) - 1 ==> R == 1 && result == TXT
+//@   ensures all-arguments-make-a-plain-call: len(fc.Args) == len(fc_functype(fc).Targets) - 1 ==> R == 2 && result == TXT
+//@   at before call fcPartialApplyGo#0: R = 1
+//@   at after call fcPartialApplyGo#0: TXT = ret
+//@   at before call fcFullApplyGo#0: R = 2
+//@   at after call fcFullApplyGo#0: TXT = ret
 
 // the literal arms of the expression emitter (the other arms are abstract here)
 //@ func ExprToGo
@@ -1214,6 +1222,7 @@ package main
 //@   trusted
 //@   panics may
 //@   returns fc_functype(fc)
+//@   ensures a-function-type-ends-in-its-result-type: len(result.Targets) >= 1
 //@   note abstract: the function type of the callee (inference context)
 
 //@ func ftiToParamName
